@@ -103,6 +103,24 @@ inline void digest_path(const smooth::CubicSpline<smooth::SE2d>& c, Out& out) {
   put_elem(out, c.end());
 }
 
+// Dubins targets chosen so that every geometric case of the planner occurs: coinciding turning
+// circles (same position), infeasible circle-circle-circle words (far away), targets behind and
+// beside the start, tangent configurations, and generic ones
+inline smooth::SE2d* make_target(In& in, int index) {
+  switch (index) {
+    case 0: return new smooth::SE2d(smooth::SE2d::Identity());
+    case 1: return new smooth::SE2d(smooth::SO2d(1.5707963267948966), Eigen::Vector2d(0, 0));
+    case 2: return new smooth::SE2d(smooth::SO2d(0.4), Eigen::Vector2d(10.0, 3.0));
+    case 3: return new smooth::SE2d(smooth::SO2d(3.1), Eigen::Vector2d(-8.0, 0.1));
+    case 4: return new smooth::SE2d(smooth::SO2d(0.0), Eigen::Vector2d(0.0, 0.3));
+    case 5: return new smooth::SE2d(smooth::SO2d(3.141592653589793), Eigen::Vector2d(0.0, 2.0));
+    case 6: return new smooth::SE2d(smooth::SO2d(-1.0), Eigen::Vector2d(0.0, -1.4));
+    case 7: return new smooth::SE2d(smooth::SO2d(0.0), Eigen::Vector2d(4.0, 0.0));
+    default: return new smooth::SE2d(smooth::SO2d(in.sym(3.0)), Eigen::Vector2d(in.sym(6.0), in.sym(6.0)));
+  }
+}
+inline void digest_target(const smooth::SE2d& g, Out& out) { put_elem(out, g); }
+
 struct CurveTag {
   static constexpr const char* lie = "curve.SE2d";
 };
@@ -114,7 +132,9 @@ struct CurveOps {
   };
   static void prep(OpInst& op, Pool& pool) {
     auto* st = new St;
-    st->target = &shared_elem<smooth::SE2d>(pool, "elem.SE2d", (int)op.p[1]);
+    // p[3] bit 3: a target from the general SE2 pool, otherwise one of the chosen geometric cases
+    st->target = (op.p[3] & 8) ? &shared_elem<smooth::SE2d>(pool, "elem.SE2d", (int)op.p[1])
+                               : &h::pool_get<smooth::SE2d, &make_target, &digest_target>(pool, "curve.target", (int)op.p[1]);
     st->path = &h::pool_get<smooth::CubicSpline<smooth::SE2d>, &make_path, &digest_path>(pool, "curve.path", (int)op.p[2] % 3);
     op.st = st;
   }
@@ -125,6 +145,12 @@ struct CurveOps {
       case 0: put_curve(out, smooth::dubins_curve<3>(*st->target, 0.7)); break;
       case 1: put_curve(out, smooth::dubins_curve<1>(*st->target)); break;
       case 2: {
+        if (op.p[3] & 4) {
+          // no velocity bound at all: the per-sample linear programs are unbounded (another solver exit)
+          const Eigen::Vector3d vinf = Eigen::Vector3d::Constant(std::numeric_limits<double>::infinity());
+          put_curve(out, smooth::reparameterize_spline(*st->path, -vinf, vinf, -amax, amax, 1, 1, 30));
+          break;
+        }
         const auto s = smooth::reparameterize_spline(*st->path, -vmax, vmax, -amax, amax, 1, 1, 30);
         put_curve(out, s);
         break;
@@ -138,7 +164,7 @@ struct CurveOps {
       default: out.tag("?"); break;
     }
   }
-  static constexpr OpDef def = {CurveTag::lie, "G", kCurveNFn, kCurveFn, 4, 6, 1, 0, &prep, &run};
+  static constexpr OpDef def = {CurveTag::lie, "G", kCurveNFn, kCurveFn, 10, 6, 1, 0, &prep, &run};
 };
 
 #define OPS_TAG5(NAME, BASE)                             \
